@@ -32,6 +32,7 @@ pub struct RStats {
     pub capacity: u64,
     pub noise_sets: u64,
     pub thread_hops: u64,
+    pub mutations: u64,
 }
 
 impl RStats {
@@ -56,6 +57,7 @@ impl RStats {
         self.capacity += o.capacity;
         self.noise_sets += o.noise_sets;
         self.thread_hops += o.thread_hops;
+        self.mutations += o.mutations;
     }
     pub fn pairs(&self) -> Vec<(&'static str, u64)> {
         vec![
@@ -81,6 +83,7 @@ impl RStats {
             ("capacity_churn", self.capacity),
             ("history_noise_sets", self.noise_sets),
             ("caller_thread_hops", self.thread_hops),
+            ("in_place_mutation_after_hashing", self.mutations),
         ]
     }
 }
@@ -354,6 +357,18 @@ fn core(d: &Desc, ch: &mut Choices, st: &mut RStats, rp: &RealiseParams) -> Term
                     t.push_components(tail).expect("set accepts components");
                     t
                 }
+                #[cfg(narsim_portable_sets)]
+                3 => {
+                    // TermSetType is not a std HashSet on this tree: only the operations every
+                    // container offers (construction through the library, Extend)
+                    st.route_handbuilt += 1;
+                    let mut s: TermSetType = narsese::enum_narsese::new_term_set_type();
+                    for x in items {
+                        s.extend(std::iter::once(x));
+                    }
+                    set_variant(*k, s)
+                }
+                #[cfg(not(narsim_portable_sets))]
                 3 => {
                     st.route_handbuilt += 1;
                     let cap = [0usize, 1, 4, 16, 64][ch.choose(5) as usize];
